@@ -749,8 +749,33 @@ pub fn gen_case(seed: u64, id: u64) -> Case {
     // axes that leave the tree at the root, the parent of an attribute
     let mut special_fail = false;
     let mut doc_target = false;
+    let mut zoo = false;
     if sibling_family || rng.pct(12) {
-        match if sibling_family { 4 } else { [0usize, 1, 2, 3, 6][rng.below(5)] } {
+        match if sibling_family { 4 } else { [0usize, 1, 2, 3, 6, 7][rng.below(6)] } {
+            7 => {
+                // every core function and operator once, with arguments at the edges: never a crash (O2);
+                // the value is not judged here (the XPath properties are not simulation targets)
+                expr = rng
+                    .ps(&[
+                        "//*[id('x')]", "id('x y')", "//*[lang('en')]", "lang('')", "translate('abc','ab','A')", "translate('abc','abc','')",
+                        "substring-before('a','')", "substring-after('abc','')", "normalize-space()", "string-length()", "string-length('aé𝒳')",
+                        "number('x')", "number(' 12 ')", "sum(//*)", "sum(//@id)", "round(-0.5)", "round(0 div 0)", "floor(1.5)", "ceiling(-0.5)",
+                        "local-name(//@*)", "namespace-uri(//@*)", "name(/)", "string(/)", "1 mod 0", "5 mod -2", "//* = //*", "//* < 1", "//* != //@*",
+                        "string(1 div 0)", "string(-0)", "string(0.1)", "concat('a','b','c')", "contains('','')", "starts-with('a','')",
+                        "boolean('')", "not(//*)", "count(/)", "//*[position()=last()]/..", "(//*)[0]", "//*[-1]", "//*[1.5]", "//*[0 div 0]",
+                        "//*[true()][false()]", "//*[last()][last()]", "//text()[string-length() > 2]", "//*[name() = local-name()]",
+                        "//*[count(ancestor::*) > 1]", "//*[sum(@id) > 0]", "//*[string(@x)]", "//*[not(@*)]", "-(-1)", "1 - -1", "2 * 3 div 4 mod 5",
+                        "'a' = 1", "true() > false()", "//comment() | //processing-instruction()", "//*[self::a or self::b]", "//@*[. = '']",
+                    ])
+                    .to_string();
+                paths.clear();
+                attr = None;
+                text_runs = false;
+                scalar = None;
+                need_ns = false;
+                zoo = true;
+                what = "core functions and operators at the edges (not judged beyond no crash)".into();
+            }
             6 => {
                 // string functions at the edges of their argument ranges (xq prints the scalar; for xe a scalar is unusable)
                 let s = rng.ps(&["abc", "12345", "aéb𝒳z", ""]).to_string();
@@ -1096,6 +1121,8 @@ pub fn gen_case(seed: u64, id: u64) -> Case {
                 }
             }
         }
+    } else if zoo {
+        expect_kind = "any".into();
     } else if special_fail {
         expect_kind = "fail".into();
     } else if doc_target && tool == "xq" {
